@@ -875,6 +875,20 @@ impl<'a, 'b> Gen<'a, 'b> {
                 let ctx = Ctx { i, left: true, mode: Mode::Named, in_look: false };
                 let depth = self.src.range(1, p.max_depth);
                 let mut body = match kind {
+                    // a @string rule whose body consists of `@:` overrides (documented: all field declarations are ignored)
+                    PK::Str if self.src.chance(50) => {
+                        let arms = 1 + self.src.weighted(&[4, 4, 2]);
+                        let mut v = vec![];
+                        for _ in 0..arms {
+                            let (e, _) = self.gen_override_arm(ctx, None, true);
+                            v.push(e);
+                        }
+                        if v.len() == 1 {
+                            v.pop().unwrap()
+                        } else {
+                            Expr::Choice(v)
+                        }
+                    }
                     PK::Struct | PK::Str => self.gen_expr(depth, ctx),
                     PK::Unit => self.noise(depth, ctx),
                     PK::Override => {
